@@ -25,6 +25,7 @@ FINDING_DEV = {
     "KF-C02-14": "Odp!TextBoxesAfterBody",
     "KF-C02-15": "Ppt!TextBoxesAfterBody",
     "KF-C02-16": "Ppt!PlaceholderLineFilter",
+    "KF-C02-17": "Rtf!UControlWordLeaks",
 }
 
 
@@ -66,7 +67,7 @@ def docx_walk_model(ctx, traces):
 # ----------------------------------------------------------------------------- RTF body stripper: token-level model
 _RTF_TOKEN = {"SP": " ", "LF": "\n", "CR": "\r", "PAR": "\\par", "LINE": "\\line", "TAB": "\\tab", "PAGE": "\\page",
               "SBK": "\\sbkpage", "CW": "\\b", "CWN": "\\fs24", "CWNEG": "\\li-120", "HEX": "\\'e9", "UNI": "\\u233?",
-              "ESCB": "\\{", "OPEN": "{", "OPENCW": "{\\b", "OPENSTAR": "{\\*\\xdest", "OPENNAMED": "{\\pict", "CLOSE": "}"}
+              "ESCB": "\\{", "HEXBAD": "\\'zz", "UL": "\\ul ", "UC": "\\uc1 ", "OPEN": "{", "OPENCW": "{\\b", "OPENSTAR": "{\\*\\xdest", "OPENNAMED": "{\\pict", "CLOSE": "}"}
 _RTF_CONTROL = {"PAR", "LINE", "TAB", "PAGE", "SBK", "CW", "CWN", "CWNEG", "OPENCW", "OPENSTAR", "OPENNAMED"}
 
 
@@ -139,13 +140,13 @@ def rtf_strip_model(ctx):
     from ..tlc import MachineryError, run_tlc
     rich = "TRUE" if ctx.thorough else "FALSE"
     invs = "".join(f"INVARIANT {i}\n" for i in ("Inv_StepAgreesWithFunction", "Inv_HiddenNeverShown", "Inv_VisibleOnceInOrder",
-                                                  "Inv_SeparatorsFaithful", "Inv_PagesPartition"))
+                                                  "Inv_SeparatorsFaithful", "Inv_PagesPartition", "Inv_NothingInvented"))
     cfg = f"SPECIFICATION Spec\nCONSTANTS WalkDev = {{}}\n Rich = {rich}\n{invs}PROPERTY Prop_Terminates\n"
     r = run_tlc("RtfStrip", cfg, scratch=ctx.scratch, expect_fail=True, heap="8g", workers=16, timeout=3000)
     ctx.ev.tlc("RtfStrip: hidden destinations never shown, visible words once and in order, separators faithful, pages partition", r)
     if r.violated:
         ctx.v.violation(what=f"RtfStrip.tla: the strict stripper model violates {r.violated}", observed=r.output[-1500:])
-    for dv in ("Rtf!NestedDestinationEndsSkip", "Rtf!RawNewlineIsText"):
+    for dv in ("Rtf!NestedDestinationEndsSkip", "Rtf!RawNewlineIsText", "Rtf!UControlWordLeaks"):
         rs = run_tlc("RtfStrip", cfg.replace("WalkDev = {}", f'WalkDev = {{"{dv}"}}').replace(f"Rich = {rich}", "Rich = FALSE"),
                      scratch=ctx.scratch, expect_fail=True, heap="8g")
         ctx.ev.tlc(f"RtfStrip sensitivity: step {dv} must violate a theorem", rs, note="expected violation")
@@ -159,14 +160,35 @@ def rtf_strip_model(ctx):
         raise MachineryError(f"RtfStrip dump {len(streams)} != {rg.distinct}")
     streams = [s_ for s_ in streams if s_]
     chunks = [streams[k:k + 1500] for k in range(0, len(streams), 1500)]
-    with ProcessPoolExecutor(16) as ex:
-        obs = list(ex.map(_rtf_strip_job, chunks))
+    # the stripper is a hand-written loop: a chunk that does not come back within the budget is reported (the process
+    # pool is abandoned, its workers are killed)
+    ex = ProcessPoolExecutor(16)
+    futs = [ex.submit(_rtf_strip_job, ch) for ch in chunks]
+    obs = []
+    import concurrent.futures as cf
+    try:
+        for ch, f in zip(chunks, futs):
+            try:
+                obs.append(f.result(timeout=600))
+            except cf.TimeoutError:
+                ctx.v.violation(what="the RTF body stripper did not return within 600 s on a chunk of generated token streams "
+                                     f"(first source: {_rtf_render(ch[0])!r}): it does not terminate on one of them",
+                                case={"streams": ch[:20]}, where="rtf_extractor.py:_strip_rtf_full_with_pages")
+                obs.append({"obs": [{"src": _rtf_render(t_), "exc": "Timeout"} for t_ in ch]})
+                for pr in list(getattr(ex, "_processes", {}).values()):
+                    pr.kill()
+                break
+    finally:
+        ex.shutdown(wait=False, cancel_futures=True)
+    chunks = chunks[:len(obs)]
     traces = []
     for ch, o in zip(chunks, obs):
         if "skip" in o:
             ctx.log("rtf-strip binding skipped: " + o["skip"])
             return
         for toks, ob in zip(ch, o["obs"]):
+            if ob.get("exc") == "Timeout":
+                continue
             if "exc" in ob:
                 ctx.v.violation(what=f"the RTF stripper raised on a generated token stream: {ob['exc']}; source {ob['src']!r}",
                                 case={"toks": toks}, where="rtf_extractor.py:_strip_rtf_full_with_pages")
@@ -176,7 +198,7 @@ def rtf_strip_model(ctx):
 
     def cfgfn(dev):
         return f"SPECIFICATION TraceSpec\nCONSTANTS WalkDev = {to_tla(set(dev))}\nCONSTRAINT TraceAccept\n"
-    validate_with_findings(ctx, "RtfStripTrace", traces, {"KF-C02-13": "Rtf!RawNewlineIsText"},
+    validate_with_findings(ctx, "RtfStripTrace", traces, {"KF-C02-13": "Rtf!RawNewlineIsText", "KF-C02-17": "Rtf!UControlWordLeaks"},
                            lambda t, e: f"RTF body stripper differs from the model RtfStrip.tla: source {t['raw']!r} -> result "
                                         f"{json.dumps(e['result'])[:200]} pages {json.dumps(e['pages'])[:200]}",
                            lambda t: "rtf_extractor.py:_RtfParser._strip_rtf_full_with_pages", cfg=cfgfn)
